@@ -786,51 +786,56 @@ inductive Res where
   | bad
 deriving DecidableEq, Repr, Inhabited
 
+/-- the authority comparison at the top of `Install`: reject, answer from the ready
+    state, keep the (not ready) state of an equal authority, or fence to the new one -/
+def installDecision (chan : Option QChan) (a : Authority) : Except Res QChan :=
+  match chan with
+  | some ch =>
+    if ch.auth.id ≠ AuthId.zero then
+      match cmpAuth a.id ch.auth.id with
+      | .lt => .error (.err .stale)
+      | .eq =>
+        if a ≠ ch.auth then .error (.err .conflict)
+        else if a.fenced then .error (.err .fenced)
+        else if ch.ready then .error (.installed ch.auth.id ch.frontier.leo ch.hw)
+        else .ok ch
+      | .gt => .ok (fenceChan a)
+    else .ok (fenceChan a)
+  | none => .ok (fenceChan a)
+
+/-- the tail of `Install`: publish the recovered (and barrier-extended) frontier -/
+def installFinish (i : Nat) (ch : QChan) (a : Authority) : Sys × Except Err RState → Sys × Res
+  | (s, .error e) => (s, .err e)
+  | (s, .ok frontier) =>
+    match s.node? i with
+    | none => (s, .bad)
+    | some nd' =>
+      let ch' : QChan := { ch with frontier := frontier, hw := frontier.leo, ready := true,
+                                   pending := none, retained := [] }
+      (s.setNode i { nd' with chan := some ch' }, .installed a.id frontier.leo frontier.leo)
+
+/-- recovery, repair and barrier of `Install` (the owner is already fenced to `ch`) -/
+def installRecover (s : Sys) (i : Nat) (ch : QChan) (a : Authority) (ps : List PSpec) (acks : List Ack) : Sys × Res :=
+  if a.fenced then (s, .err .fenced) else
+  match recoverPrefix s a.q ps with
+  | .error e => (s, .err e)
+  | .ok sel =>
+    match repairPrefix s ps i sel with
+    | (s, .error e) => (s, .err e)
+    | (s, .ok recovered) =>
+      installFinish i ch a
+        (if recovered ≠ RState.zero ∧ !frontierUsesAuthority recovered a.id then writeBarrier s i a recovered acks
+         else (s, .ok recovered))
+
 /-- `quorumLog.Install` on node `i` -/
 def install (s : Sys) (i : Nat) (a : Authority) (ps : List PSpec) (acks : List Ack) : Sys × Res :=
   match s.node? i with
   | none => (s, .bad)
   | some nd =>
     if !validAuthority s.n a then (s, .err .invalid) else
-    -- authority comparison and fencing
-    let decision : Except Res (QChan × Bool) :=
-      match nd.chan with
-      | some ch =>
-        if ch.auth.id ≠ AuthId.zero then
-          match cmpAuth a.id ch.auth.id with
-          | .lt => .error (.err .stale)
-          | .eq =>
-            if a ≠ ch.auth then .error (.err .conflict)
-            else if a.fenced then .error (.err .fenced)
-            else if ch.ready then .error (.installed ch.auth.id ch.frontier.leo ch.hw)
-            else .ok (ch, false)
-          | .gt => .ok (fenceChan a, true)
-        else .ok (fenceChan a, true)
-      | none => .ok (fenceChan a, true)
-    match decision with
+    match installDecision nd.chan a with
     | .error r => (s, r)
-    | .ok (ch, _) =>
-      let s := s.setNode i { nd with chan := some ch }
-      if a.fenced then (s, .err .fenced) else
-      match recoverPrefix s a.q ps with
-      | .error e => (s, .err e)
-      | .ok sel =>
-        match repairPrefix s ps i sel with
-        | (s, .error e) => (s, .err e)
-        | (s, .ok recovered) =>
-          let fin : Sys × Except Err RState :=
-            if recovered ≠ RState.zero ∧ !frontierUsesAuthority recovered a.id then
-              writeBarrier s i a recovered acks
-            else (s, .ok recovered)
-          match fin with
-          | (s, .error e) => (s, .err e)
-          | (s, .ok frontier) =>
-            match s.node? i with
-            | none => (s, .bad)
-            | some nd' =>
-              let ch' : QChan := { ch with frontier := frontier, hw := frontier.leo, ready := true,
-                                           pending := none, retained := [] }
-              (s.setNode i { nd' with chan := some ch' }, .installed a.id frontier.leo frontier.leo)
+    | .ok ch => installRecover (s.setNode i { nd with chan := some ch }) i ch a ps acks
 
 /-- `remember`: bounded FIFO of retained commands -/
 def remember (cap : Nat) (retained : List (Cmd × Retained)) (r : Retained) : List (Cmd × Retained) :=
@@ -876,6 +881,53 @@ def reconcile (cap : Nat) (ch : QChan) (st : Store) (cmd : Cmd) (cs : List Nat) 
       let r : Retained := ⟨⟨m, p.contents, m.base⟩, m.base + 1, m.last, some receipt⟩
       ({ ch with retained := remember cap ch.retained r }, .receipt receipt)
 
+/-- `retryPending` + `finishCommit`: run the round again for an already sealed proposal -/
+def commitRetry (s : Sys) (i : Nat) (ch : QChan) (r : Retained) (acks : List Ack) : Sys × Res :=
+  let (s', ok, _) := runRound s i ch.auth.q acks r.p
+  if !ok then (s', .err .unavailable) else
+  let (ch', res) := finishCommit s.cap ch r
+  match s'.node? i with
+  | none => (s', .bad)
+  | some nd' => (s'.setNode i { nd' with chan := some ch' }, res)
+
+/-- the new-command path of `Commit`: seal, remember as pending, run the round, then
+    finish, reconcile a definite conflict through the durable command index, or
+    keep the proposal pending -/
+def commitFresh (s : Sys) (i : Nat) (nd : NodeSt) (ch : QChan) (cmd : Cmd) (cs : List Nat) (acks : List Ack) : Sys × Res :=
+  match sealBusiness ch cmd cs with
+  | none => (s, .err .invalid)
+  | some r =>
+    let chP := { ch with pending := some r }
+    let s := s.setNode i { nd with chan := some chP }
+    let (s', ok, out) := runRound s i ch.auth.q acks r.p
+    match s'.node? i with
+    | none => (s', .bad)
+    | some nd' =>
+      if !ok then
+        if out = .conflict then
+          let (ch', res) := reconcile s.cap { chP with pending := none } nd'.store cmd cs
+          (s'.setNode i { nd' with chan := some ch' }, res)
+        else (s', .err .unavailable)
+      else
+        let (ch', res) := finishCommit s.cap chP r
+        (s'.setNode i { nd' with chan := some ch' }, res)
+
+/-- `Commit` once the admission guards passed (ready, expected authority, not fenced) -/
+def commitAdmitted (s : Sys) (i : Nat) (nd : NodeSt) (ch : QChan) (cmd : Cmd) (cs : List Nat) (acks : List Ack) : Sys × Res :=
+  match ch.retained.find? (fun x => decide (x.1 = cmd)) with
+  | some (_, r) =>
+    if r.p.contents ≠ cs then (s, .err .conflict) else
+    match r.receipt with
+    | some rc => (s, .receipt rc)
+    | none => commitRetry s i ch r acks
+  | none =>
+    match ch.pending with
+    | some r =>
+      if r.p.m.cmd = cmd then
+        if r.p.contents ≠ cs then (s, .err .conflict) else commitRetry s i ch r acks
+      else (s, .err .backpressure)
+    | none => commitFresh s i nd ch cmd cs acks
+
 /-- `quorumLog.Commit` on node `i`: command `c`, record contents `cs` -/
 def commit (s : Sys) (i : Nat) (expected : AuthId) (c : Nat) (cs : List Nat) (acks : List Ack) : Sys × Res :=
   match s.node? i with
@@ -888,44 +940,7 @@ def commit (s : Sys) (i : Nat) (expected : AuthId) (c : Nat) (cs : List Nat) (ac
       if !ch.ready then (s, .err .notready) else
       if expected ≠ ch.auth.id then (s, .err .stale) else
       if ch.auth.fenced then (s, .err .fenced) else
-      let cmd := Cmd.biz c
-      let retry (r : Retained) : Sys × Res :=
-        let (s', ok, _) := runRound s i ch.auth.q acks r.p
-        if !ok then (s', .err .unavailable) else
-        let (ch', res) := finishCommit s.cap ch r
-        match s'.node? i with
-        | none => (s', .bad)
-        | some nd' => (s'.setNode i { nd' with chan := some ch' }, res)
-      match ch.retained.find? (fun x => decide (x.1 = cmd)) with
-      | some (_, r) =>
-        if r.p.contents ≠ cs then (s, .err .conflict) else
-        match r.receipt with
-        | some rc => (s, .receipt rc)
-        | none => retry r
-      | none =>
-        match ch.pending with
-        | some r =>
-          if r.p.m.cmd = cmd then
-            if r.p.contents ≠ cs then (s, .err .conflict) else retry r
-          else (s, .err .backpressure)
-        | none =>
-          match sealBusiness ch cmd cs with
-          | none => (s, .err .invalid)
-          | some r =>
-            let chP := { ch with pending := some r }
-            let s := s.setNode i { nd with chan := some chP }
-            let (s', ok, out) := runRound s i ch.auth.q acks r.p
-            match s'.node? i with
-            | none => (s', .bad)
-            | some nd' =>
-              if !ok then
-                if out = .conflict then
-                  let (ch', res) := reconcile s.cap { chP with pending := none } nd'.store cmd cs
-                  (s'.setNode i { nd' with chan := some ch' }, res)
-                else (s', .err .unavailable)
-              else
-                let (ch', res) := finishCommit s.cap chP r
-                (s'.setNode i { nd' with chan := some ch' }, res)
+      commitAdmitted s i nd ch (Cmd.biz c) cs acks
 
 /-! ## operations -/
 
